@@ -9,6 +9,7 @@ import json, os, subprocess, sys
 
 pid = sys.argv[1]
 tag = sys.argv[2] if len(sys.argv) > 2 else ""
+avoid = sys.argv[3] if len(sys.argv) > 3 else ""     # free text: sites already used by earlier seeded changes
 wt = f"/tmp/mut_{pid}{tag}"
 td = f"{wt}_target"
 prop = None
@@ -48,6 +49,7 @@ sequence of operations, an unusual input (a length relative to the 16-byte ciphe
 a name shape, an option combination), or two cooperating sites that each look fine alone.  A change that ordinary use
 would expose at once (every archive unreadable, every command failing) is not wanted.
 
+{("Earlier changes against this property already used the following sites; choose a DIFFERENT site and a different mechanism: " + avoid + chr(10)) if avoid else ""}
 Deliver, in `{wt}/_mutation/1/`:
 
 * `patch.diff` — `git diff` of your change (must apply with `git apply` to a clean checkout of this commit);
